@@ -1052,6 +1052,19 @@ func (e *nenum) inline(fr *nframe, ce *ast.CallExpr, d *ast.FuncDecl, retTo []as
 	nf := e.newFrame(d, fr, subst)
 	nf.ptr = ptr
 	nf.retTo, nf.retTok, nf.tail = retTo, tok, tail
+	// a parameter the helper assigns to is a local of the helper that starts as the argument
+	if d.Type.Params != nil {
+		for _, f := range d.Type.Params.List {
+			for _, nm := range f.Names {
+				if num, assigned := nf.multi[nm.Name]; assigned && !ptr[nm.Name] {
+					if a, ok := nf.subst[nm.Name]; ok {
+						delete(nf.subst, nm.Name)
+						e.add(pev{"set", num + "=" + a, ce})
+					}
+				}
+			}
+		}
+	}
 	// loop variables of the caller stay visible through the substituted argument texts only
 	e.inlining[d] = true
 	if e.c.expanded != nil {
@@ -1308,6 +1321,20 @@ func (e *nenum) stmt(fr *nframe, s ast.Stmt) {
 			}
 		}
 	case *ast.ReturnStmt:
+		if len(x.Results) == 0 && fr.fd.Type.Results != nil {
+			// a bare return of named results returns their current values
+			var named []ast.Expr
+			for _, f := range fr.fd.Type.Results.List {
+				for _, nm := range f.Names {
+					named = append(named, ast.NewIdent(nm.Name))
+				}
+			}
+			if len(named) > 0 {
+				cp := *x
+				cp.Results = named
+				x = &cp
+			}
+		}
 		if len(x.Results) == 1 {
 			if ce, ok := x.Results[0].(*ast.CallExpr); ok {
 				if d := e.helperOf(fr, ce); d != nil && d.Type.Results != nil {
